@@ -17,4 +17,5 @@ def rules(ctx, tier):
         lambda: identity.rule_ident(ctx),
         lambda: search.rule_finderid(ctx),
         lambda: order.rule_ord(ctx),
+        lambda: mutation.rule_esc(ctx),
     ]
